@@ -131,6 +131,11 @@ class dict_(dict, metaclass=_TypeShimMeta):
                 return SeqDict(a[0].ms[0], a[0].ms[1])
             m = _materialise(a[0])
             if isi(m, Seq):
+                # an abstract sequence of (key, value) pairs: one segment whose element is a 2-tuple
+                from .folds import SeqDict
+                if len(m.segs) == 1 and isi(m.segs[0], Gen) and isi(m.segs[0].elem, tuple) and len(m.segs[0].elem) == 2:
+                    g = m.segs[0]
+                    return SeqDict(Seq([Gen(g.base, g.guard, g.elem[0])]), Seq([Gen(g.base, g.guard, g.elem[1])]))
                 raise Unsupported("dict() over an abstract sequence of pairs")
             if any(is_sym(p[0]) for p in m):
                 return SymDict(m)
